@@ -61,6 +61,17 @@ theorem t35_values_distinct : ∀ b : Fin 197, Generated.t35Value.getD b.val 999
 example : DelaysWF (some (⟨0, 0, [⟨0, 0, false⟩], 3, 4, 5, 6⟩ : Sps.Hrd)) (some (31, 63)) := by
   exact ⟨31, 63, rfl, by decide, by decide⟩
 
+/-- the public accessors `seconds() / minutes() / hours()` of a parsed clock timestamp return the coded parts, and 0 for
+the parts that the coded flags left out (model of the three accessor functions; exercised on every pic_timing case) -/
+theorem smh_accessors (x y z : Nat) :
+    (SeiPayload.SecMinHour.smh x y z).seconds = x ∧ (SeiPayload.SecMinHour.smh x y z).minutes = y ∧
+    (SeiPayload.SecMinHour.smh x y z).hours = z ∧
+    (SeiPayload.SecMinHour.sm x y).seconds = x ∧ (SeiPayload.SecMinHour.sm x y).minutes = y ∧
+    (SeiPayload.SecMinHour.sm x y).hours = 0 ∧
+    (SeiPayload.SecMinHour.s x).seconds = x ∧ (SeiPayload.SecMinHour.s x).minutes = 0 ∧ (SeiPayload.SecMinHour.s x).hours = 0 ∧
+    SeiPayload.SecMinHour.none.seconds = 0 ∧ SeiPayload.SecMinHour.none.minutes = 0 ∧ SeiPayload.SecMinHour.none.hours = 0 :=
+  ⟨rfl, rfl, rfl, rfl, rfl, rfl, rfl, rfl, rfl, rfl, rfl, rfl⟩
+
 /-- Table D-1 in the running code (graph extracted through `PicTiming::read` on every run): every pic_struct value is
 accepted as its own distinct value and the number of clock-timestamp slots read is the model's `numClockTs` -/
 theorem code_pic_struct_table : Generated.picStruct.length = 16 ∧
